@@ -354,6 +354,11 @@ func registerConstModel(e *Engine) {
 			if pr, ok := a[2].(*Term); ok && pr.Const && pr.CI.Sign() == 0 {
 				return mkConstInt(IntSub(IntNeg(x.V.(*Term)), IntT64(1)))
 			}
+			// prec > 0: the complement within prec bits, (-x-1) mod 2^prec
+			if pr, ok := a[2].(*Term); ok && pr.Const && pr.CI.Sign() > 0 && pr.CI.IsInt64() && pr.CI.Int64() <= 4096 {
+				m := IntT(new(big.Int).Lsh(big.NewInt(1), uint(pr.CI.Int64())))
+				return mkConstInt(IntMod(IntSub(IntNeg(x.V.(*Term)), IntT64(1)), m))
+			}
 		}
 		st.unsupported("constant.UnaryOp %s on kind %d", op, k)
 		return nil
